@@ -139,3 +139,10 @@ Ltac sq_norm :=
          | |- context [?a * ?a * ?a] => progress (replace (a * a * a) with (a ^ 3) by ring)
          | |- context [?a * ?a] => progress (replace (a * a) with (a ^ 2) by ring)
          end.
+
+(* 1 + cos x written without cancellation (orbital.py, _calculate_xlcof): 2 cos^2 (x/2) *)
+Lemma half_angle_1pcos (x : R) : 2 * (cos (1 / 2 * x)) ^ 2 = 1 + cos x.
+Proof.
+  replace (cos x) with (cos (2 * (1 / 2 * x))) by (f_equal; field).
+  rewrite cos_2a_cos. ring.
+Qed.
